@@ -135,9 +135,11 @@ class Swarm:
 
 
 class EnvSim:
-    def __init__(self, spec, modes, props, seed=0, tier="quick"):
+    def __init__(self, spec, modes, props, seed=0, tier="quick",
+                 scripted=True, scenario=None, cfg=None, record=False):
         import nasim
         from nasim.envs import NASimEnv
+        self.record = [] if record else None
         self.spec = spec
         self.modes = dict(modes)
         self.props = set(props)
@@ -152,10 +154,13 @@ class EnvSim:
         self.classes = set()
         self.steps_total = 0
         self.progress = 0
-        try:
-            self.scenario, self.cfg = configs.build(spec)
-        except Exception as e:
-            raise SutError("build", e)
+        if scenario is not None:
+            self.scenario, self.cfg = scenario, cfg
+        else:
+            try:
+                self.scenario, self.cfg = configs.build(spec)
+            except Exception as e:
+                raise SutError("build", e)
         self.layout = Layout(self.cfg)
         try:
             self.env = NASimEnv(self.scenario, **self.modes)
@@ -164,9 +169,13 @@ class EnvSim:
         self.fully_obs = bool(modes["fully_obs"])
         self.flat_obs = bool(modes["flat_obs"])
         self.table = ActionTable(self.env, self.cfg)
-        self.seam = seams.scripted_network()
-        self.rnd = self.seam.__enter__()
-        self.rnd.reseed_private(seed)
+        if scripted:
+            self.seam = seams.scripted_network()
+            self.rnd = self.seam.__enter__()
+            self.rnd.reseed_private(seed)
+        else:
+            self.seam = None
+            self.rnd = seams.NullScript()
         self.n_since_reset = 0
         self.ledger = oracles.EpisodeLedger(self.cfg)
         self.oracle = oracles.Oracles(self)
@@ -178,7 +187,13 @@ class EnvSim:
         self._do_reset(first=True)
 
     def close(self):
-        self.seam.__exit__(None, None, None)
+        if self.seam is not None:
+            self.seam.__exit__(None, None, None)
+            self.seam = None
+
+    def rec_out(self, kind, **kw):
+        if self.record is not None:
+            self.record.append((kind, kw))
 
     # ------------------------------------------------------------------
     # state bookkeeping
@@ -225,6 +240,8 @@ class EnvSim:
         post = read_status(env.current_state, self.cfg)
         self.note_state(post)
         self.oracle.after_reset(out, post, first)
+        self.rec_out("reset", state=env.current_state.tensor.tobytes(),
+                     obs=np.asarray(out[0]).tobytes())
         if first:
             self.init_obs = np.array(out[0], copy=True)
 
@@ -295,6 +312,10 @@ class EnvSim:
         x = self.table.encode(plain, "int" if self.table.flat else "list")
         rec = self.oracle.transition(state, obj, x, self._draws_for(op),
                                      real=False, background=True)
+        self.rec_out("gstep", state=rec["post_t"].tobytes(),
+                     obs=rec["obs2d"].tobytes(), reward=float(rec["reward"]),
+                     done=bool(rec["done"]),
+                     info=oracles._canon_info(rec["info"]))
         self.keep_state(rec["next_state"])
 
     def _exec_step(self, op):
@@ -318,8 +339,13 @@ class EnvSim:
             self.counters.hit("fault.encoding." + enc)
         if self.episode_over:
             self.counters.hit("fault.post_terminal")
-        self.oracle.real_step(obj, x, plain, self._draws_for(op))
+        rec = self.oracle.real_step(obj, x, plain, self._draws_for(op))
         self.steps_total += 1
+        self.rec_out("step", state=rec["post_t"].tobytes(),
+                     obs=np.asarray(rec["obs_out"]).tobytes(),
+                     reward=float(rec["reward"]), done=bool(rec["done"]),
+                     trunc=bool(rec["trunc"]),
+                     info=oracles._canon_info(rec["info"]))
 
     # ------------------------------------------------------------------
     # online workload generation
